@@ -32,7 +32,7 @@ from ..summaries import Summaries
 
 LEVEL = "other"
 META = {
-    "technique": "static analysis: effect analysis over the may-call graph from all analysis entry points (token mutation, file-state writes, in-place mutation of the token list / token index classified by a may-alias analysis with return/mutate-parameter summaries, read-modify-write of rule state), driver shape check",
+    "technique": "static analysis: effect analysis over the may-call graph from all analysis entry points (token mutation, file-state writes, in-place mutation of the token list / token index classified by a may-alias analysis with return/mutate-parameter summaries, read-modify-write of rule state), driver shape check; memoising-decorator lint with return-value immutability",
     "level_text": "Decides non-interference by construction for all inputs, rule subsets and analysis orders: if analysis writes neither the file model nor the "
     "index nor shared objects, and only recomputed caches on the rule itself, the violations a rule reports are a function of (file, that rule's "
     "configuration). Sites where today's tree violates this are individually triaged (known finding with a demonstrated input, or tabled with a reason).",
